@@ -840,9 +840,18 @@ def generate_enum(seed, tier='quick', index=0):
     s = Streams(seed)
     rng = s('gen')
     spec = gen_settings.gen_settings_spec(rng, max_n=2 if tier == 'quick' else 3)
+    # which limited call is enumerated: site (count / candidate instantiation / distance correlation) x which of the calls
+    # at that site (first, middle, last) x matrix cache cold or warm (warm: the aggregate matrix comes from disk, so work
+    # that the cold path does before any limited call - e.g. deriving the effective settings per existence pattern -
+    # first happens inside a limited call)
+    combos = [(1, 'first', True), (0, 'middle', False), (2, 'middle', False), (1, 'middle', False), (1, 'last', True),
+              (0, 'first', True), (1, 'first', False), (2, 'first', True), (1, 'middle', True), (0, 'last', False)]
+    site, which, warm = combos[index % len(combos)]
+    if warm and not spec.get('patterns'):
+        spec = gen_settings.gen_settings_spec(rng, max_n=2 if tier == 'quick' else 3, p_patterns=1.0)
     return {'property': PROPERTY, 'engine': ENGINE, 'seed': seed, 'settings': [spec], 'phases': [],
-            'env_seed': s.int_seed('env'), 'config': 'enum', 'enum': {'site': index % 3,
-                                                                       'stride_min_points': 24 if tier == 'quick' else 60}}
+            'env_seed': s.int_seed('env'), 'config': 'enum',
+            'enum': {'site': site, 'which': which, 'warm_matrix': warm, 'stride_min_points': 24 if tier == 'quick' else 60}}
 
 
 WRITE_FUNCS = ('_write_to_cache', 'get_best_assignment_manager', 'iter_n_sources_targets', 'get_agg_matrix',
@@ -917,12 +926,15 @@ def _execute_bridge(trace):
 def _execute_enum(trace):
     """Dry selection to learn the limited calls and their delivery-point counts; then one 2-phase run per kill point."""
     base = copy.deepcopy(trace)
-    base['phases'] = [{'ops': [['select', 0, False, {'mode': 'none'}, True]], 'disk_faults': []}]
+    warm = bool(trace['enum'].get('warm_matrix'))
+    pre = [{'ops': [['agg', 0, True]], 'disk_faults': []}] if warm else []
+    base['phases'] = pre + [{'ops': [['select', 0, warm, {'mode': 'none'}, True]], 'disk_faults': []}]
     base['config'] = 'in-contract'
     with simenv.RunEnv(trace['env_seed']) as env:
-        r = runner.fork_call(_phase, (base, 0, env.dir), 300.0)
-    if r.get('status') != 'ok':
-        raise RuntimeError('dry phase failed: ' + str(r.get('detail'))[:400])
+        for pi in range(len(base['phases'])):
+            r = runner.fork_call(_phase, (base, pi, env.dir), 300.0)
+            if r.get('status') != 'ok':
+                raise RuntimeError('dry phase failed: ' + str(r.get('detail'))[:400])
     rec = r['records'][0]
     calls = rec.get('calls', [])
     kinds = ['_get_n_mat', '_instantiate_manager', '_get_dist_corr']
@@ -934,14 +946,14 @@ def _execute_enum(trace):
     keys = []
     sub = 0
     if cand:
-        c = cand[len(cand) // 2]
+        c = cand[{'first': 0, 'last': len(cand) - 1}.get(trace['enum'].get('which'), len(cand) // 2)]
         K = c[2]
         step = max(1, K // trace['enum']['stride_min_points'])
         points = sorted(set(list(range(1, min(K, 8) + 1)) + list(range(1, K + 1, step)) + list(range(max(1, K - 7), K + 1))))
         for k in points:
             t = copy.deepcopy(base)
-            t['phases'] = [{'ops': [['select', 0, True, {'mode': 'map', 'map': {str(c[0]): k}}, True]], 'disk_faults': []},
-                           {'ops': [['select', 0, True, {'mode': 'none'}, True], ['agg', 0, True]], 'disk_faults': []}]
+            t['phases'] = pre + [{'ops': [['select', 0, True, {'mode': 'map', 'map': {str(c[0]): k}}, True]], 'disk_faults': []},
+                                 {'ops': [['select', 0, True, {'mode': 'none'}, True], ['agg', 0, True]], 'disk_faults': []}]
             rr = execute(t)
             sub += 1
             for kk, v in rr['stats'].items():
@@ -1139,5 +1151,5 @@ def jobs(tier, batch_seed):
     if tier == 'thorough':
         return std_jobs([('generate_enum', 32), ('generate_bridge', 48), ('generate_keys', 4000), ('generate_io', 6000),
                          ('generate', 20000), ('generate_disk', 6000)], batch_seed, interleave_from=2)
-    return std_jobs([('generate_enum', 2), ('generate_bridge', 3), ('generate_keys', 60), ('generate_io', 50), ('generate', 110),
+    return std_jobs([('generate_enum', 3), ('generate_bridge', 3), ('generate_keys', 60), ('generate_io', 50), ('generate', 110),
                      ('generate_disk', 30)], batch_seed, interleave_from=2)
